@@ -117,9 +117,11 @@ pub fn check_c07(input: &str, stats: &mut Stats) {
                 SEv::DocEnd => root_done = false,
                 _ => {}
             }
-            let Some(&(ds, ks, _)) = g.seen.get(i) else { break };
-            let want_ds = open_colls + usize::from(root_done);
-            if ks != open_maps || ds != want_ds {
+            let Some(&(ds, ks, doc_end)) = g.seen.get(i) else { break };
+            // (the exact depth of the node stack between events is an implementation choice; what
+            // must hold is one pending-key slot per open mapping and empty stacks after DocumentEnd)
+            let _ = root_done;
+            if ks != open_maps || (doc_end && (ds != 0 || ks != 0)) {
                 viol(
                     stats,
                     "C07/h4-stack-invariant".into(),
